@@ -86,6 +86,21 @@ size_t HashBdh::getSize() {
   return mem;
 }
 
+void HashBdh::save(std::ostream &fp) {
+  // The compacted table is expanded to the representation stored in the file
+  LogSequence *seq = new LogSequence(hash->getNumbits(), tsize);
+
+  for (size_t i = 1; i <= n; i++)
+    seq->setField(b_ht->select1(i), hash->getField(i - 1));
+
+  saveValue(fp, tsize);
+  saveValue(fp, n);
+  seq->save(fp);
+  b_ht->save(fp);
+
+  delete seq;
+}
+
 HashBdh *HashBdh::load(std::istream &fp) {
   HashBdh *h_new = new HashBdh();
 
